@@ -482,10 +482,11 @@ func writePacketAdaptationField(w *astikit.BitsWriter, af *PacketAdaptationField
 	}
 
 	if af.HasTransportPrivateData {
-		// we can get length from TransportPrivateData itself, why do we need separate field?
-		b.Write(uint8(af.TransportPrivateDataLength))
+		// transport_private_data_length is taken from TransportPrivateData itself, like the adaptation field size is:
+		// the separate TransportPrivateDataLength field is redundant and must not contradict the bytes written
+		b.Write(uint8(len(af.TransportPrivateData)))
 		bytesWritten++
-		if af.TransportPrivateDataLength > 0 {
+		if len(af.TransportPrivateData) > 0 {
 			b.Write(af.TransportPrivateData)
 		}
 		bytesWritten += len(af.TransportPrivateData)
